@@ -51,6 +51,9 @@ type Interp struct {
 	MaxSteps     int
 	// Inline decides whether an in-module callee is interpreted (default: yes).
 	Inline func(fn *ssa.Function) bool
+	// InlineExternal: callees outside the module that are interpreted from
+	// their own source instead of being modelled (default: none).
+	InlineExternal func(fn *ssa.Function) bool
 	// LastIf records the most recent branch taken (for reports).
 	LastIf   *ssa.If
 	branches []string
@@ -331,6 +334,10 @@ func (in *Interp) globalInit(g *ssa.Global, elem types.Type, name string) Val {
 	}
 	if isErrorType(elem) {
 		return Iface{Dyn: types.Typ[types.Invalid], V: Opaque{"global:" + name, elem}}
+	}
+	// lookup tables: built once by the initialiser, never written afterwards
+	if v, ok := in.evalGlobalFromInit(g); ok {
+		return v
 	}
 	return Opaque{"global:" + name, elem}
 }
@@ -868,6 +875,10 @@ func (in *Interp) convert(v Val, from, to types.Type, at ssa.Instruction) Val {
 			switch x := v.(type) {
 			case Iface:
 				return x.V
+			case Opaque:
+				// bytes produced by code outside the fragment (strconv.Append*,
+				// a buffer): an opaque text
+				return SymStr{Key: "string(" + x.Key + ")"}
 			default:
 				return v
 			}
@@ -1019,6 +1030,9 @@ func (in *Interp) dispatch(fr *frame, site ssa.CallInstruction, cc *ssa.CallComm
 		return res
 	}
 	if target != nil && len(target.Blocks) > 0 && in.c.P.InModule(target) && (in.Inline == nil || in.Inline(target)) {
+		return in.Call(target, args, bind)
+	}
+	if target != nil && len(target.Blocks) > 0 && in.InlineExternal != nil && in.InlineExternal(target) {
 		return in.Call(target, args, bind)
 	}
 	// unknown callee: an opaque, deterministic result keyed by callee and
